@@ -41,6 +41,8 @@ type CfgCore struct {
 	Strs                           []string
 	M                              map[string]int
 	Set                            map[string]struct{}
+	SM                             []map[string]int    // maps inside a slice
+	MM                             map[string][]string // slices inside a map
 	Nest                           Nested
 	PN                             *Nested
 	Emb
@@ -79,30 +81,32 @@ var stampNames = [4]string{"StampA", "StampB", "StampC", "StampD"}
 // Part is a partial config: what one layer sets. nil / absent means unset.
 // It is plain data so that scenarios can be written to replay files.
 type Part struct {
-	ID        uint64         `json:"id"` // run-unique; becomes the owning source's stamp
-	I         *int           `json:"i,omitempty"`
-	S         *string        `json:"s,omitempty"`
-	Dur       *int64         `json:"dur,omitempty"`
-	F         *float64       `json:"f,omitempty"`
-	B         *bool          `json:"b,omitempty"`
-	P         *int           `json:"p,omitempty"`
-	Strs      []string       `json:"strs"`
-	M         map[string]int `json:"m"`
-	Set       []string       `json:"set,omitempty"`
-	NestS     *string        `json:"nest_s,omitempty"`
-	NestN     *int           `json:"nest_n,omitempty"`
-	NestX     *int           `json:"nest_x,omitempty"`
-	PNS       *string        `json:"pn_s,omitempty"`
-	PNN       *int           `json:"pn_n,omitempty"`
-	EmbA      *int           `json:"emb_a,omitempty"`
-	EmbS      *string        `json:"emb_s,omitempty"`
-	After     *int           `json:"after,omitempty"`
-	Iface     *string        `json:"iface,omitempty"`
-	BadIface  bool           `json:"bad_iface,omitempty"` // ill-typed value: stacking fails
-	Lo        *int           `json:"lo,omitempty"`
-	Hi        *int           `json:"hi,omitempty"`
-	Forbidden *bool          `json:"forbidden,omitempty"`
-	Share     bool           `json:"share,omitempty"` // C02: the same map / backing array / pointer is placed in two leaves
+	ID        uint64              `json:"id"` // run-unique; becomes the owning source's stamp
+	I         *int                `json:"i,omitempty"`
+	S         *string             `json:"s,omitempty"`
+	Dur       *int64              `json:"dur,omitempty"`
+	F         *float64            `json:"f,omitempty"`
+	B         *bool               `json:"b,omitempty"`
+	P         *int                `json:"p,omitempty"`
+	Strs      []string            `json:"strs"`
+	M         map[string]int      `json:"m"`
+	Set       []string            `json:"set,omitempty"`
+	SM        []map[string]int    `json:"sm,omitempty"`
+	MM        map[string][]string `json:"mm,omitempty"`
+	NestS     *string             `json:"nest_s,omitempty"`
+	NestN     *int                `json:"nest_n,omitempty"`
+	NestX     *int                `json:"nest_x,omitempty"`
+	PNS       *string             `json:"pn_s,omitempty"`
+	PNN       *int                `json:"pn_n,omitempty"`
+	EmbA      *int                `json:"emb_a,omitempty"`
+	EmbS      *string             `json:"emb_s,omitempty"`
+	After     *int                `json:"after,omitempty"`
+	Iface     *string             `json:"iface,omitempty"`
+	BadIface  bool                `json:"bad_iface,omitempty"` // ill-typed value: stacking fails
+	Lo        *int                `json:"lo,omitempty"`
+	Hi        *int                `json:"hi,omitempty"`
+	Forbidden *bool               `json:"forbidden,omitempty"`
+	Share     bool                `json:"share,omitempty"` // C02: the same map / backing array / pointer is placed in two leaves
 }
 
 func setPtr(f reflect.Value, v any) {
@@ -201,6 +205,20 @@ func fillValue(e reflect.Value, p *Part, owner int) {
 		}
 		fld("Set").Set(reflect.ValueOf(m))
 	}
+	if p.SM != nil {
+		out := make([]map[string]int, len(p.SM))
+		for i, m := range p.SM {
+			out[i] = cloneM(m)
+		}
+		fld("SM").Set(reflect.ValueOf(out))
+	}
+	if p.MM != nil {
+		out := map[string][]string{}
+		for k, l := range p.MM {
+			out[k] = cloneStrs(l)
+		}
+		fld("MM").Set(reflect.ValueOf(out))
+	}
 	if p.NestS != nil || p.NestN != nil || p.NestX != nil {
 		f := fld("Nest")
 		n := reflect.New(f.Type().Elem())
@@ -291,6 +309,18 @@ func defaultsFrom(p *Part) *CfgCore {
 		c.Set = map[string]struct{}{}
 		for _, k := range p.Set {
 			c.Set[k] = struct{}{}
+		}
+	}
+	if p.SM != nil {
+		c.SM = make([]map[string]int, len(p.SM))
+		for i, m := range p.SM {
+			c.SM[i] = cloneM(m)
+		}
+	}
+	if p.MM != nil {
+		c.MM = map[string][]string{}
+		for k, l := range p.MM {
+			c.MM[k] = cloneStrs(l)
 		}
 	}
 	if p.NestS != nil {
